@@ -8,7 +8,8 @@ LINE_COMMENTS = ['// l%d', '//l%d', '/// doc %d', '//! q%d', '// a\tb %d', '//  
 CONT_COMMENTS = ['// first %d \\\n   second line \\\n   third', '// a %d \\\n// b']
 STRINGS = ['"s%d"', '"a\tb %d"', '"  lead %d"', '"trail %d  "', '"q\\"uote %d"', '"\xc3\xa4\xe2\x82\xac %d"', '"/* no comment %d */"', '"// no %d"', '"%%d %d\\n"',
            '"tab\t\ttab %d"', '"a \\\nb %d"']
-RAW_STRINGS = ['R"(raw %d)"', 'R"x(a\n   b  \n\tc %d)x"', 'R"d(")" %d)d"', 'u8R"(u8 %d)"', 'LR"(wide\n%d)"']
+RAW_STRINGS = ['R"(raw %d)"', 'R"x(a\n   b  \n\tc %d)x"', 'R"d(")" %d)d"', 'u8R"(u8 %d)"', 'LR"(wide\n%d)"',
+               'R"ab(x )ac"   "   y %d )ab"', 'R"tag(a )tab"  ,  "  b %d)tag"']
 CHARS = ["'c'", "'\\''", "'\\t'", "'\t'", "' '", "L'x'", "'\\\\'"]
 
 
